@@ -14,6 +14,36 @@ TRUSTED_BASE = [
 # ---------------------------------------------------------------- pipe streams: harness | extracted driver
 PIPE = {"merge": "merge", "validate": "validate", "plan": "plan", "graph": "graph"}
 
+# coqc evaluations are scheduled through one semaphore so that a thorough run cannot start more of them than memory allows
+# (a shard of 15 MB of case terms was seen to need 10-20 GB; shards are therefore also cut by size, see run_hview)
+import threading
+_COQ_SEM = threading.Semaphore(int(os.environ.get("VERIF_COQ_PAR", "12")))
+class Coqc:
+    def __init__(self, args, cwd, env):
+        self.returncode = None; self.out = ""; self.err = ""; self.p = None
+        self.t = threading.Thread(target=self._run, args=(args, cwd, env), daemon=True); self.t.start()
+    def _run(self, args, cwd, env):
+        with _COQ_SEM:
+            try:
+                self.p = subprocess.Popen(args, cwd=cwd, stdout=subprocess.PIPE, stderr=subprocess.PIPE, text=True, env=env)
+                self.out, self.err = self.p.communicate()
+                self.returncode = self.p.returncode
+                if self.returncode < 0: self.err += " [coqc ended by signal %d - out of memory?]" % (-self.returncode)
+            except Exception as ex:
+                self.returncode = 99; self.err = "could not run coqc: %s" % ex
+    def communicate(self, timeout=None):
+        self.t.join(timeout)
+        if self.t.is_alive(): raise subprocess.TimeoutExpired("coqc", timeout)
+        return self.out, self.err
+    def kill(self):
+        if self.p is not None:
+            try: self.p.kill()
+            except Exception: pass
+
+def nshards(terms, per, cap, max_bytes=1500000):
+    # at least one, at most [cap] by case count, but never more than [max_bytes] of case terms in one coqc
+    return max(1, min(cap, len(terms) // per), -(-sum(len(t) for t in terms) // max_bytes))
+
 def nontrivial_pipe(kind, line):
     f = line[2:].split("|")
     if kind == "merge": return f[0] != "" and f[1] != ""
@@ -94,18 +124,18 @@ def run_cert(kind, tier, seed, C, tz=None):
     if len(descr) != len(terms):
         return {"cases": 0, "nontrivial": 0, "samples": [], "violations": viol, "error": "harness %s: %d CASE lines but %d COQ lines" % (kind, len(descr), len(terms))}
     # shard and evaluate
-    nsh = max(1, min(12, len(terms) // 60))
+    nsh = nshards(terms, 60, 12)
     procs = []
     for k in range(nsh):
         idx = list(range(k, len(terms), nsh))
         name = "Cases_%s_%d" % (re.sub(r"\W", "_", tag), k)
         v = CASES_HEADER + ";\n".join(terms[i] for i in idx) + "].\nDefinition M := Eval vm_compute in run_cases cases.\nPrint M.\nDefinition MN := Eval vm_compute in List.length M.\nPrint MN.\n"
         open(os.path.join(C["bdir"], name + ".v"), "w").write(v)
-        procs.append((idx, name, subprocess.Popen(["coqc"] + C["COQ_Q"] + [name + ".v"], cwd=C["bdir"], stdout=subprocess.PIPE, stderr=subprocess.PIPE, text=True, env=C["ENV"])))
+        procs.append((idx, name, Coqc(["coqc"] + C["COQ_Q"] + [name + ".v"], C["bdir"], C["ENV"])))
     err = None
     for idx, name, pr in procs:
         try:
-            o, e = pr.communicate(timeout=3000)
+            o, e = pr.communicate(timeout=14000)
         except subprocess.TimeoutExpired:
             pr.kill(); err = "coqc %s timed out" % name; continue
         if pr.returncode != 0:
@@ -146,19 +176,19 @@ def run_dir(kind, tier, seed, C):
         if l.startswith("CASE "): descr.append(l[5:])
         elif l.startswith("COQ "): terms.append(l[4:])
         elif l.startswith("SELFFAIL "): viol.append({"case": l[9:300], "detail": l[9:], "concrete": True})
-    nsh = max(1, min(12, len(terms) // 25))
+    nsh = nshards(terms, 25, 12)
     procs = []
     for k in range(nsh):
         idx = list(range(k, len(terms), nsh))
         name = "Dir_%s_%d" % (kind, k)
         v = DIR_HEADER + ";\n".join(terms[i] for i in idx) + "].\nDefinition M := Eval vm_compute in run_histories cases.\nPrint M.\nDefinition MN := Eval vm_compute in List.length M.\nPrint MN.\n"
         open(os.path.join(C["bdir"], name + ".v"), "w").write(v)
-        procs.append((idx, name, subprocess.Popen(["coqc"] + C["COQ_Q"] + [name + ".v"], cwd=C["bdir"], stdout=subprocess.PIPE, stderr=subprocess.PIPE, text=True, env=C["ENV"])))
+        procs.append((idx, name, Coqc(["coqc"] + C["COQ_Q"] + [name + ".v"], C["bdir"], C["ENV"])))
     err = None; steps = 0; runs = 0
     for t in terms:
         steps += t.count("U (") + t.count("R (mkStrat") + t.count("C (mkFlags"); runs += t.count("R (mkStrat") + t.count("C (mkFlags")
     for idx, name, pr in procs:
-        try: o, e = pr.communicate(timeout=3000)
+        try: o, e = pr.communicate(timeout=14000)
         except subprocess.TimeoutExpired:
             pr.kill(); err = "coqc %s timed out" % name; continue
         if pr.returncode != 0:
@@ -172,6 +202,7 @@ def run_dir(kind, tier, seed, C):
                  4: "C14: a run replaced or dropped an existing key / request, or the new certificate does not carry its public key",
                  5: "C15: a failed write was reported as a successful run",
                  6: "C10: an existing certificate file was replaced although the answer at the prompt was not y",
+                 8: "C15/C20: the run panicked instead of ending with a result",
                  7: "C11: the entities a successful run wrote are not the ones its flags demand in the state the history had reached (regen relation)"}
         found = re.findall(r"\((\d+), \(\[([\d; ]*)\], \[([\d;, ()]*)\]\)\)", body)
         err = count_check(o, len(found), name) or err
@@ -228,16 +259,16 @@ def run_keys(kind, tier, seed, C):
     procs = []
     for k in "KPMHN":
         if not terms[k]: continue
-        nsh = max(1, min(8, len(terms[k]) // 80))
+        nsh = nshards(terms[k], 80, 8)
         for sh_i in range(nsh):
             idx = list(range(sh_i, len(terms[k]), nsh))
             name = "Keys_%s_%s_%d" % (re.sub(r"\W", "_", kind), k, sh_i)
             v = KEY_HEADER + "Definition cases : list %s := [\n" % DEF[k][0] + ";\n".join(terms[k][i] for i in idx) + "].\nDefinition M := Eval vm_compute in %s cases.\nPrint M.\nDefinition MN := Eval vm_compute in List.length M.\nPrint MN.\n" % DEF[k][1]
             open(os.path.join(C["bdir"], name + ".v"), "w").write(v)
-            procs.append((k, idx, name, subprocess.Popen(["coqc"] + C["COQ_Q"] + [name + ".v"], cwd=C["bdir"], stdout=subprocess.PIPE, stderr=subprocess.PIPE, text=True, env=C["ENV"])))
+            procs.append((k, idx, name, Coqc(["coqc"] + C["COQ_Q"] + [name + ".v"], C["bdir"], C["ENV"])))
     err = None
     for k, idx, name, pr in procs:
-        try: o, e = pr.communicate(timeout=3000)
+        try: o, e = pr.communicate(timeout=14000)
         except subprocess.TimeoutExpired:
             pr.kill(); err = "coqc %s timed out" % name; continue
         if pr.returncode != 0:
@@ -280,14 +311,14 @@ def run_hview(kind, tier, seed, C):
         if l.startswith("CASE "): descr.append(l[5:])
         elif l.startswith("COQ "): terms.append("(" + l[4:] + ")")
         elif l.startswith("SELFFAIL "): viol.append({"case": l[9:300], "detail": l[9:], "concrete": True})
-    nsh = max(1, min(12, len(terms) // 100)); procs = []
+    nsh = nshards(terms, 100, 12, 1200000); procs = []
     for k in range(nsh):
         idx = list(range(k, len(terms), nsh)); name = "Hash_%d" % k
         open(os.path.join(C["bdir"], name + ".v"), "w").write(HASH_HEADER + ";\n".join(terms[i] for i in idx) + "].\nDefinition M := Eval vm_compute in run_pairs cases.\nPrint M.\nDefinition MN := Eval vm_compute in List.length M.\nPrint MN.\n")
-        procs.append((idx, name, subprocess.Popen(["coqc"] + C["COQ_Q"] + [name + ".v"], cwd=C["bdir"], stdout=subprocess.PIPE, stderr=subprocess.PIPE, text=True, env=C["ENV"])))
+        procs.append((idx, name, Coqc(["coqc"] + C["COQ_Q"] + [name + ".v"], C["bdir"], C["ENV"])))
     err = None
     for idx, name, pr in procs:
-        try: o, e = pr.communicate(timeout=3000)
+        try: o, e = pr.communicate(timeout=14000)
         except subprocess.TimeoutExpired:
             pr.kill(); err = "coqc %s timed out" % name; continue
         if pr.returncode != 0:
